@@ -81,6 +81,11 @@ theorem fresh_apply (s : State) (a : Act) (hi : Inv s) (hf : Fresh s) (hr : racy
     split
     · exact hf
     · exact ⟨hf.haveH, hf.holding, hf.added⟩
+  | notify =>
+    simp only [apply, notify]
+    split
+    · exact hf
+    · exact ⟨hf.haveH, hf.holding, hf.added⟩
   | run =>
     simp only [apply, runStep]
     split
@@ -150,6 +155,11 @@ theorem offer_apply (s : State) (a : Act) (hi : Inv s) (hf : Offer s) : Offer (a
     split
     · exact hf
     · exact ⟨hf.holding, hf.added⟩
+  | notify =>
+    simp only [apply, notify]
+    split
+    · exact hf
+    · exact ⟨hf.holding, hf.added⟩
   | run =>
     simp only [apply, runStep]
     split
@@ -215,6 +225,11 @@ theorem retained_apply (s : State) (a : Act) (x : Elem) (hi : Inv s) (hf : Fresh
     (hr : racy s a = false) (hd : a ≠ .disc) (h : Retained s x) : Retained (apply s a) x := by
   cases a with
   | disc => exact absurd rfl hd
+  | notify =>
+    simp only [apply, notify]
+    split
+    · exact h
+    · exact h
   | put e hr' =>
     obtain ⟨h1, h2, h3, _⟩ := put_frame s e (min hr' s.height)
     simp only [apply, Retained, h1, h2, h3]
@@ -309,6 +324,11 @@ theorem retained_apply_all (s : State) (a : Act) (x : Elem) (hi : Inv s) (hf : O
     (hd : a ≠ .disc) (h : Retained s x) : Retained (apply s a) x := by
   cases a with
   | disc => exact absurd rfl hd
+  | notify =>
+    simp only [apply, notify]
+    split
+    · exact h
+    · exact h
   | put e hr' =>
     obtain ⟨h1, h2, h3, _⟩ := put_frame s e (min hr' s.height)
     simp only [apply, Retained, h1, h2, h3]
